@@ -11,6 +11,7 @@ type outcome struct {
 	val  Value
 	pan  bool
 	msg  string
+	fns  []string
 }
 type collector struct {
 	outs    []outcome
@@ -127,6 +128,7 @@ func (m *Machine) callPure(fn *ssa.Function, args []Value, call ssa.Instruction)
 	// merge
 	var panCond *T = BoolC(false)
 	var panMsg string
+	var panFns []string
 	var res Value
 	defer func() {
 		if r := recover(); r != nil {
@@ -142,6 +144,7 @@ func (m *Machine) callPure(fn *ssa.Function, args []Value, call ssa.Instruction)
 		if o.pan {
 			panCond = Or(panCond, o.cond)
 			panMsg = o.msg
+			panFns = append(panFns, o.fns...)
 			continue
 		}
 		if res == nil {
@@ -159,7 +162,11 @@ func (m *Machine) callPure(fn *ssa.Function, args []Value, call ssa.Instruction)
 	}
 	if !panCond.False() {
 		if m.decide(panCond) {
-			m.raiseRuntime(panMsg)
+			if call != nil && call.Pos().IsValid() {
+				m.curPos = call.Pos()
+			}
+			m.pendingFns = append([]string{fn.String()}, panFns...)
+			m.raiseRuntime(panMsg + " (in " + fn.String() + ")")
 		}
 	}
 	if res == nil {
